@@ -65,12 +65,12 @@ SPECS = [
     # ------------------------------------------------------------------ Jubjub
     H("c11::jubjub_affine_from_bytes_zip216", "C11.K.jubjub.affine.from_bytes",
       "JubjubAffine::from_bytes: accepted iff (sign-masked bytes canonical per blst) AND (square root exists) AND NOT (u = 0 with sign bit set); v from the masked bytes; u's sign fixed by lsb(to_bytes(u)) xor sign bit",
-      [f"{JJ}::JubjubAffine::from_bytes", f"{JJ}::JubjubAffine::from_bytes_inner"], "all 32-byte inputs, every blst_fr_* answer nondeterministic (ff's Tonelli-Shanks runs over them)",
-      "JubjubAffine::from_bytes:sign-canonicity", est=120, timeout={"quick": 280, "thorough": 1200}),
+      [f"{JJ}::JubjubAffine::from_bytes", f"{JJ}::JubjubAffine::from_bytes_inner"], "all 32-byte inputs, every blst_fr_* answer and the square-root answer nondeterministic",
+      "JubjubAffine::from_bytes:sign-canonicity", est=20, replay=False, stubs=["ff::helpers::sqrt_tonelli_shanks"]),
     H("c11::jubjub_affine_from_bytes_pre_zip216", "C11.K.jubjub.affine.from_bytes_pre_zip216",
       "JubjubAffine::from_bytes_pre_zip216_compatibility: same without the u = 0 rule",
-      [f"{JJ}::JubjubAffine::from_bytes_pre_zip216_compatibility", f"{JJ}::JubjubAffine::from_bytes_inner"], "all 32-byte inputs, every blst_fr_* answer nondeterministic",
-      "JubjubAffine::from_bytes_pre_zip216:sign-canonicity", est=120, timeout={"quick": 280, "thorough": 1200}),
+      [f"{JJ}::JubjubAffine::from_bytes_pre_zip216_compatibility", f"{JJ}::JubjubAffine::from_bytes_inner"], "all 32-byte inputs, every blst_fr_* answer and the square-root answer nondeterministic",
+      "JubjubAffine::from_bytes_pre_zip216:sign-canonicity", est=20, replay=False, stubs=["ff::helpers::sqrt_tonelli_shanks"]),
     H("c11::jubjub_affine_to_bytes_contract", "C11.K.jubjub.affine.to_bytes",
       "JubjubAffine::to_bytes = little-endian bytes of v with bit 255 := lsb of u's bytes",
       [f"{JJ}::JubjubAffine::to_bytes"], "all coordinate limbs, all oracle answers", "JubjubAffine::to_bytes:contract", est=8),
